@@ -14,7 +14,7 @@ import ast
 import builtins
 import symtable
 
-from ..astutil import blueprint_vars
+from ..astutil import blueprint_vars, calls_in, kwarg
 from ..model import norm, walk_own
 from ..report import RuleResult
 
@@ -445,4 +445,93 @@ def rule_seqkind(ctx) -> RuleResult:
                 res.report(f"{q}|tuple-mutated|{norm(recv)}", f.where(stmt), q,
                            f"'{norm(recv)}{how}' mutates the sequence in place, but on some path it was bound to a tuple (kinds reaching this statement: {sorted(ks)}): "
                            "AttributeError / TypeError when the path runs (inside a task for the combine stages)")
+    return res
+
+
+# ---------------------------------------------------------------------------------------------
+# R-OUTALIAS (C18, C01): a buffer written through `out=` never shares memory with a value that is read afterwards.
+# `x.astype(dtype, copy=False)`, np.asarray(x), reshapes, views and basic slices MAY return x's own memory.  If such a value is used as the
+# destination of a ufunc (`out=`), every later read of x sees the overwritten data -- silently, and only for the dtypes for which no copy was
+# made.  Intra-procedural may-alias sets (flow-insensitive, symmetric closure over the view-returning forms), then: for every call with
+# out=<name>, no *other* member of the name's alias set is loaded in a statement reachable after the call.
+_VIEW_METHODS = {"reshape", "view", "ravel", "squeeze", "swapaxes", "transpose"}
+_VIEW_FUNCS = {"np.asarray", "np.asanyarray", "np.atleast_1d", "np.atleast_2d", "np.squeeze", "np.reshape", "np.ravel", "np.broadcast_to", "np.moveaxis", "np.swapaxes"}
+
+
+def rule_outalias(ctx) -> RuleResult:
+    res = RuleResult("R-OUTALIAS", "a buffer written through out= shares no memory with a value read afterwards", min_instances=2)
+    from ..cfg import CFG, node_uses
+    from ..dataflow import node_containing
+
+    def viewed(e):
+        """name whose memory the value of e may share, or None"""
+        if isinstance(e, ast.Name):
+            return e.id
+        if isinstance(e, ast.Attribute) and e.attr == "T":
+            return viewed(e.value)
+        if isinstance(e, ast.Subscript):
+            return viewed(e.value)
+        if isinstance(e, ast.Call):
+            fn = norm(e.func)
+            if isinstance(e.func, ast.Attribute) and e.func.attr == "astype":
+                cp = kwarg(e, "copy")
+                if isinstance(cp, ast.Constant) and cp.value is False:
+                    return viewed(e.func.value)
+                return None
+            if isinstance(e.func, ast.Attribute) and e.func.attr in _VIEW_METHODS:
+                return viewed(e.func.value)
+            if fn in _VIEW_FUNCS and e.args:
+                return viewed(e.args[0])
+        return None
+
+    n_sites = 0
+    for q, f in sorted(ctx.prog.funcs.items()):
+        if isinstance(f.node, ast.Lambda) or f.is_overload:
+            continue
+        outs = [(c, kwarg(c, "out")) for c in calls_in(f.node) if isinstance(kwarg(c, "out"), ast.Name)]
+        if not outs:
+            continue
+        alias: dict[str, set[str]] = {}
+        for a in walk_own(f.node):
+            if isinstance(a, ast.Assign) and len(a.targets) == 1 and isinstance(a.targets[0], ast.Name):
+                src = viewed(a.value)
+                if src and src != a.targets[0].id:
+                    alias.setdefault(a.targets[0].id, set()).add(src)
+                    alias.setdefault(src, set()).add(a.targets[0].id)
+        cfg = None
+        for c, o in outs:
+            n_sites += 1
+            seen, work = {o.id}, [o.id]
+            while work:
+                for y in alias.get(work.pop(), ()):
+                    if y not in seen:
+                        seen.add(y)
+                        work.append(y)
+            others = seen - {o.id}
+            late = []
+            if others:
+                cfg = cfg or CFG(f)
+                start = node_containing(cfg, c)
+                if start is not None:
+                    vis, wk = set(), [s_ for s_, lab in start.succ]
+                    while wk:
+                        i = wk.pop()
+                        if i in vis:
+                            continue
+                        vis.add(i)
+                        m = cfg.nodes[i]
+                        for u in node_uses(m):
+                            if u.id in others:
+                                late.append((m, u.id))
+                        wk.extend(s_ for s_, lab in m.succ)
+            res.inst(f"{q}: {norm(c.func)}(…, out={o.id}): may share memory with {sorted(others) or '-'}; read after the write: {sorted({x for _, x in late}) or '-'}",
+                     f"{q}|{c.lineno}|{o.id}")
+            if late:
+                m, nm = late[0]
+                res.report(f"{q}|out-buffer-aliases-later-read|{o.id}|{nm}", f.where(c), q,
+                           f"'{norm(c)[:60]}' writes into '{o.id}', which may share memory with '{nm}' (a copy=False cast / view of it), and '{nm}' is read again afterwards "
+                           f"('{norm(m.ast)[:50] if m.ast is not None else ''}'): whenever no copy was made the later statement sees the overwritten values")
+    if n_sites == 0:
+        res.notes.append("no call with out=<name> in the package")
+        res.min_instances = 0
     return res
